@@ -265,6 +265,11 @@ let handle (line : String.t) : String.t =
     let o = ST (store_of s, n_of_string l) in
     (match apply_sop dk.d o with Some d' -> dk.d <- d'; dk.journal <- o :: dk.journal; dk.jlen <- dk.jlen + 1; "ok" | None -> "err Protocol")
   | "new" :: c :: d :: role :: _ -> do_open c d (Some (keypair_of_role role)) false
+  | "newover" :: c :: d :: role :: _ ->
+    (* Storage::open(.., overwrite = true): the four stores are emptied first, then the core is created *)
+    let dk = Hashtbl.find disks d in
+    dk.d <- disk_empty;
+    do_open c d (Some (keypair_of_role role)) false
   | "open" :: c :: d :: _ -> do_open c d None true
   | "openkp" :: c :: d :: _ -> do_open c d (Some (keypair_of_role "writer")) true
   | ["drop"; c] -> Hashtbl.remove cores c; "ok"
@@ -335,6 +340,21 @@ let handle (line : String.t) : String.t =
         else if starts "contains=" then fiter_text !it ^ "/" ^ bool01 (it_contains !it (arg "contains="))
         else failwith "iter cmd") cmds in
     String.concat " " ("ok" :: out)
+  | "ramx" :: ps :: ops ->
+    (* the paged in-memory backend model (PagedMem.v) and the flat file model (Storage.v) on one operation list *)
+    let parse o = match String.split_on_char ':' o with
+      | ["w"; off; hx] -> W (n_of_string off, bytes_of_hex hx)
+      | ["r"; off; n] -> R (n_of_string off, n_of_string n)
+      | ["d"; off; n] -> D (n_of_string off, n_of_string n)
+      | ["t"; n] -> T (n_of_string n)
+      | ["l"] -> L
+      | _ -> failwith "ramx op" in
+    let show (obs, content) =
+      String.concat " " (List.map (function
+          | ODone -> "done" | OBytes b -> "b:" ^ hex_of_bytes b | OOutOfBounds -> "oob"
+          | OLen n -> "n:" ^ string_of_n n) obs) ^ " | " ^ hex_of_bytes content in
+    let l = List.map parse ops in
+    "ok " ^ show (run_ram (n_of_string ps) l) ^ " || " ^ show (run_file l)
   | ["stats"] -> Printf.sprintf "ok hash_calls=%d" !hash_calls
   | _ -> "err Protocol"
 
